@@ -68,14 +68,18 @@ func (b *googleBreaker) doReq(req func() error, fallback func(err error) error, 
 		return err
 	}
 
+	// req 正常返回才置为 true：go.mod 声明 go 1.19，panic(nil) 时 recover() 返回 nil，
+	// 单看 recover 的返回值会把这次 panic 吞掉：既不记结果，调用方还得到 nil
+	completed := false
 	defer func() {
-		if e := recover(); e != nil {
+		if e := recover(); e != nil || !completed {
 			b.markFailure()
 			panic(e)
 		}
 	}()
 
 	err := req()
+	completed = true
 	if acceptable(err) {
 		b.markSuccess()
 	} else {
